@@ -1563,7 +1563,7 @@ fn probe_step(args: &Args) {
         let mut total = 0usize;
         for pass in 0..2 {
             let stride = if pass == 0 { 0 } else if all { 1 } else { std::cmp::max(1, total / forks_per_op) };
-            let st = fork_run(args.num("timeout-ms", 600_000) as u64, || {
+            let st = fork_run(args.num("timeout-ms", 120_000) as u64, || {
                 let mut res = [0 as c_int; 2];
                 unsafe { libc::pipe(res.as_mut_ptr()) };
                 RES_FD.store(res[1], Ordering::SeqCst);
